@@ -448,6 +448,12 @@ func replayFree(u *Universe, h History, dir string, seed int64, traced, queries 
 		if err != nil {
 			return Result{OK: false, Step: i, Action: s.A, Err: err.Error()}
 		}
+		if rec != nil && s.A == "Announce" && rnd.Intn(3) == 0 {
+			// the node relays the transaction a second time
+			if err := rec.chain(&Step{A: "Reannounce", T: s.T}); err != nil {
+				return Result{OK: false, Step: i, Action: s.A, Err: err.Error()}
+			}
+		}
 		flush()
 		if d := rnd.Intn(4); d > 0 {
 			time.Sleep(time.Duration(rnd.Intn(1500)) * time.Microsecond)
